@@ -1,6 +1,8 @@
 """C13 -- shipped estimators and bets keep every martingale factor non-negative."""
 from __future__ import annotations
 
+import ast
+
 import sympy as sp
 
 from ..core import AnalysisError, norm
@@ -56,6 +58,30 @@ def fn_rules_est(name, args):
             return sign.nonneg("shift_" + str(abs(hash(sp.sstr(a))) % 1000))
         return sp.Symbol("shift_" + str(abs(hash(sp.sstr(a))) % 1000), real=True)
     return None
+
+
+def store_obligations(chk, name, tx, stores, fd, role, prove):
+    """In-place stores are invisible to the extracted return term, so each needs its own argument:
+    a store into the *returned* array after its last (clamping) assignment must itself satisfy the bounds;
+    a store into an intermediate array must keep the sign the range argument assumes (a positive constant)."""
+    rets = [r for r in ast.walk(fd) if isinstance(r, ast.Return)]
+    rv = rets[-1].value.id if rets and isinstance(rets[-1].value, ast.Name) else None
+    last_assign = max([s0.lineno for s0 in ast.walk(fd) if isinstance(s0, ast.Assign) and rv and norm(s0.targets[0]) == rv] or [0])
+    for st, target, idx_node, val_node in stores:
+        try:
+            v = tx.child(dict(tx.env)).expr(val_node)
+        except symx.Unsupported:
+            v = None
+        if target == rv and st.lineno > last_assign:
+            ok = isinstance(v, symx.E) and prove(v.e)
+            chk.ob("C13.R3" if role == "bet" else "C13.R1", W(name), f"store-after-clamp:{norm(idx_node)[:30]}", bool(ok),
+                   f"a value stored into the returned {'bets' if role == 'bet' else 'alternative means'} after the truncation satisfies the "
+                   "same bounds (it bypasses the clamp)", node=st, statement=norm(st)[:120])
+        else:
+            ok = isinstance(v, symx.E) and v.e.is_Number and v.e > 0
+            chk.ob("C13.R1", W(name), f"store-into-intermediate:{target}[{norm(idx_node)[:20]}]", bool(ok),
+                   "a value stored in place into an intermediate array of the range argument is a positive constant (keeps the assumed sign)",
+                   node=st, statement=norm(st)[:120])
 
 
 def run(chk):
@@ -115,8 +141,24 @@ def run(chk):
                 chk.ob("C13.R2", W(name), f"strictly-above-null-mean[{tag}]", ok,
                        "the value is max(., mu_j + positive) before the upper truncation, with mu_j the null "
                        "conditional mean for this method's own N, t, x", node=fd, returned=sp.sstr(leaf)[:300])
+    for name in reg["estim"]:
+        tx, ret, stores, fd = nnm.method_term(idx, name)
+        def prove_est(e, name=name):
+            tab = slack("estim", True)
+            up = sign.pos("u")
+            ee = sign.substitute(e, tab, fn_rules_est)
+            return sign.prove_ge(ee, 0) and sign.prove_le(ee, up)
+        store_obligations(chk, name, tx, stores, fd, "estim", prove_est)
     for name in reg["bet"]:
         tx, ret, stores, fd = nnm.method_term(idx, name)
+        def prove_bet(e):
+            MUJ = sign.pos("mu_j")
+            tab = slack("bet", True)
+            tab["self.u"] = MUJ + sign.nonneg("du")
+            tab["self.lam"] = sign.pos("lam_user")  # an arbitrary user-supplied initial bet: no bound is known for it
+            ee = sign.substitute(e, tab, fn_rules_est)
+            return sign.prove_ge(ee, 0) and sign.prove_le(ee, 1 / MUJ, strict=True)
+        store_obligations(chk, name, tx, stores, fd, "bet", prove_bet)
         ret = symx.prune(ret)
         for row in rows(val_atoms(ret)):
             fin = row.get(FIN)
